@@ -11,52 +11,100 @@ import (
 
 type bufioWriter = bufio.Writer
 
-var keeps = []string{"bounds", "tags:1=1", "all"}
+var keeps = []string{"bounds:0,0,2,2", "tags:1=1", "all"}
+
+// boundsCorpus: the selection "by bounds" is a CLOSED rectangle: nodes exactly on each of the four
+// edges and corners, one-point / zero-width / zero-height / inverted rectangles, and ways whose
+// only contact with the rectangle is a node on an edge.
+var boundsCorpus = [][2]string{
+	{"bounds:1,1,3,3", "n1:3,2:- n2:5,2:- w1:1,2:- n3:2,3:- n4:2,5:- w2:3,4:- n5:1,2:- n6:2,1:- n7:0,2:- n8:2,0:-"},
+	{"bounds:1,1,3,3", "w1:1,2:- n1:3,3:- n2:4,4:- r1:w1:-"},
+	{"bounds:1,1,3,3", "n1:1,1:- n2:3,1:- n3:1,3:- n4:3,3:- n5:0,0:- n6:4,4:- n7:4,3:- n8:3,4:- n9:0,1:- n10:1,0:-"},
+	{"bounds:1,1,3,3", "n1:3,0:- n2:3,4:- n3:0,3:- n4:4,3:- w1:1,2:- w2:3,4:-"},
+	{"bounds:2,2,2,2", "n1:2,2:- n2:2,3:- n3:3,2:- n4:1,2:- n5:2,1:- w1:1,2:- w2:3,4:-"},
+	{"bounds:2,0,2,4", "n1:2,0:- n2:2,4:- n3:2,2:- n4:1,2:- n5:3,2:- n6:2,5:- w1:4,1:- w2:5,6:-"},
+	{"bounds:0,2,4,2", "n1:0,2:- n2:4,2:- n3:2,2:- n4:2,1:- n5:2,3:- n6:5,2:- w1:4,1:- w2:5,6:-"},
+	{"bounds:3,3,1,1", "n1:2,2:- n2:1,1:- n3:3,3:- w1:1,2:-"},
+	{"bounds:1,3,3,1", "n1:2,2:- n2:1,1:- w1:1,2:-"},
+	{"bounds:-2,-2,0,0", "n1:0,0:- n2:-2,-2:- n3:0,-3:- n4:1,0:- n5:-2,0:- w1:3,1:- w2:4,3:-"},
+	{"bounds:0,0,4,4", "n1:0,0:- n2:4,4:- n3:5,5:- w1:3,2:- w2:3,3:-"},
+}
 
 // corpus: hand-picked small documents (each is run with every keep function)
 var corpus = []string{
 	// DESIGN 1.1 (i): ways before their nodes, sequentially incomplete on the unfixed loop condition
-	"w1:1,2:- r1:w1,n3:- n1:i:- n2:o:- n3:o:-",
+	"w1:1,2:- r1:w1,n3:- n1:1,1:- n2:5,5:- n3:5,5:-",
 	// same objects, nodes first
-	"n1:i:- n2:o:- n3:o:- w1:1,2:- r1:w1,n3:-",
+	"n1:1,1:- n2:5,5:- n3:5,5:- w1:1,2:- r1:w1,n3:-",
 	// minimal: way before its only in-bounds node
-	"w1:1,2:- n1:i:- n2:o:-",
-	"n1:i:- w1:1:-",
-	"w1:1:1=1 n1:o:-",
+	"w1:1,2:- n1:1,1:- n2:5,5:-",
+	"n1:1,1:- w1:1:-",
+	"w1:1:1=1 n1:5,5:-",
 	// two ways sharing a node; only one way touches the bounds
-	"n1:i:- n2:o:- n3:o:- w1:1,2:- w2:2,3:-",
-	"w2:2,3:- w1:1,2:- n3:o:- n2:o:- n1:i:-",
+	"n1:1,1:- n2:5,5:- n3:5,5:- w1:1,2:- w2:2,3:-",
+	"w2:2,3:- w1:1,2:- n3:5,5:- n2:5,5:- n1:1,1:-",
 	// relation cycle and relation of relations, relations first
-	"r1:r2:1=1 r2:r1,w1:- w1:1,2:- n1:o:- n2:o:-",
-	"r3:r3:1=1 n1:i:-",
-	"r1:r2:- r2:r3:- r3:n1:- n1:i:1=1",
-	"r1:r2:- r2:r3:- r3:n1:- n1:o:1=1",
+	"r1:r2:1=1 r2:r1,w1:- w1:1,2:- n1:5,5:- n2:5,5:-",
+	"r3:r3:1=1 n1:1,1:-",
+	"r1:r2:- r2:r3:- r3:n1:- n1:1,1:1=1",
+	"r1:r2:- r2:r3:- r3:n1:- n1:5,5:1=1",
 	// tagged node only; tag with other value / other key
-	"n1:o:1=1 n2:o:1=2 n3:o:2=1 w1:2,3:-",
+	"n1:5,5:1=1 n2:5,5:1=2 n3:5,5:2=1 w1:2,3:-",
 	// empty way and empty relation
-	"w1:-:1=1 r1:-:1=1 n1:i:-",
+	"w1:-:1=1 r1:-:1=1 n1:1,1:-",
 	// long chain through shared nodes (needs many passes when file order is adverse)
-	"w4:4,5:- w3:3,4:- w2:2,3:- w1:1,2:- n5:o:- n4:o:- n3:o:- n2:o:- n1:i:-",
-	"n1:i:- n2:o:- n3:o:- n4:o:- n5:o:- w1:1,2:- w2:2,3:- w3:3,4:- w4:4,5:-",
+	"w4:4,5:- w3:3,4:- w2:2,3:- w1:1,2:- n5:5,5:- n4:5,5:- n3:5,5:- n2:5,5:- n1:1,1:-",
+	"n1:1,1:- n2:5,5:- n3:5,5:- n4:5,5:- n5:5,5:- w1:1,2:- w2:2,3:- w3:3,4:- w4:4,5:-",
 	// relation holding a way that is otherwise not selected, way's nodes after it
-	"r1:w1:1=1 w1:1,2:- n1:o:- n2:o:-",
-	"n2:o:- n1:o:- w1:1,2:- r1:w1:1=1",
+	"r1:w1:1=1 w1:1,2:- n1:5,5:- n2:5,5:-",
+	"n2:5,5:- n1:5,5:- w1:1,2:- r1:w1:1=1",
 	// way repeated node refs (closed way)
-	"n1:i:- n2:o:- w1:1,2,1:1=1",
+	"n1:1,1:- n2:5,5:- w1:1,2,1:1=1",
 	// nothing selected
-	"n1:o:- n2:o:- w1:1,2:- r1:w1:-",
+	"n1:5,5:- n2:5,5:- w1:1,2:- r1:w1:-",
 }
 
 var danglingCorpus = []string{
-	"n1:i:- w1:1,9:1=1",
-	"w1:1,9:1=1 n1:i:-",
-	"r1:w7,n1:1=1 n1:o:-",
+	"n1:1,1:- w1:1,9:1=1",
+	"w1:1,9:1=1 n1:1,1:-",
+	"r1:w7,n1:1=1 n1:5,5:-",
 	"r1:r9:1=1",
-	"n1:i:- w1:1,2:- n2:o:- r1:w1,w5:-",
+	"n1:1,1:- w1:1,2:- n2:5,5:- r1:w1,w5:-",
 }
 
 type docGen struct {
-	r *vproto.Rng
+	r      *vproto.Rng
+	lo, hi int // node coordinates are integers in [lo, hi]
+}
+
+// boundsTok picks a rectangle on the node grid [lo,hi]^2: its edges pass exactly through node
+// coordinates; between about 10% and 60% of the grid points are inside for the proper boxes.
+func (g docGen) boundsTok() string {
+	r := g.r
+	switch r.Intn(10) {
+	case 0: // one point
+		x, y := r.Range(g.lo, g.hi), r.Range(g.lo, g.hi)
+		return fmt.Sprintf("bounds:%d,%d,%d,%d", x, y, x, y)
+	case 1: // zero width
+		x := r.Range(g.lo, g.hi)
+		return fmt.Sprintf("bounds:%d,%d,%d,%d", x, g.lo, x, g.hi-r.Intn(2))
+	case 2: // zero height
+		y := r.Range(g.lo, g.hi)
+		return fmt.Sprintf("bounds:%d,%d,%d,%d", g.lo+r.Intn(2), y, g.hi, y)
+	case 3: // inverted (empty)
+		return fmt.Sprintf("bounds:%d,%d,%d,%d", g.hi-1, g.lo+1, g.lo+1, g.hi-1)
+	case 4: // touches the grid only along its west/south or east/north edge
+		if r.Bool() {
+			return fmt.Sprintf("bounds:%d,%d,%d,%d", g.hi, g.lo, g.hi+3, g.hi)
+		}
+		return fmt.Sprintf("bounds:%d,%d,%d,%d", g.lo-3, g.lo-3, g.hi, g.lo)
+	default:
+		x0 := r.Range(g.lo, g.hi-1)
+		y0 := r.Range(g.lo, g.hi-1)
+		x1 := r.Range(x0+1, g.hi)
+		y1 := r.Range(y0+1, g.hi)
+		return fmt.Sprintf("bounds:%d,%d,%d,%d", x0, y0, x1, y1)
+	}
 }
 
 func (g docGen) tags(p float64) [][2]int {
@@ -86,11 +134,10 @@ func (g docGen) doc(n int, dangling bool) []obj {
 	if nr < 0 {
 		nr = 0
 	}
-	pin := 0.1 + 0.5*r.Float()
 	ptag := []float64{0.05, 0.15, 0.3}[r.Intn(3)]
 	var nodes, ways, rels []obj
 	for i := 1; i <= nn; i++ {
-		nodes = append(nodes, obj{ref: ref{'n', int64(i)}, in: r.Chance(pin), tags: g.tags(ptag / 2)})
+		nodes = append(nodes, obj{ref: ref{'n', int64(i)}, x: r.Range(g.lo, g.hi), y: r.Range(g.lo, g.hi), tags: g.tags(ptag / 2)})
 	}
 	for i := 1; i <= nw; i++ {
 		k := []int{0, 1, 2, 2, 3, 3, 4, 5, 6}[r.Intn(9)]
@@ -204,14 +251,22 @@ func gen(seed uint64, tier string) {
 			fmt.Fprintf(out, "x %s %d %d | %s\n", k, runs, r.U64()%1000000, c)
 		}
 	}
-	g := docGen{r}
+	for _, c := range boundsCorpus {
+		fmt.Fprintf(out, "x %s %d %d | %s\n", c[0], runs, r.U64()%1000000, c[1])
+	}
+	g := docGen{r, 0, 4}
 	for i := 0; i < ndocs; i++ {
 		n := 5 + r.Intn(maxObjs-4)
 		if i%3 == 0 {
 			n = 5 + r.Intn(12) // many tiny documents
 		}
+		if i%5 == 4 {
+			g.lo, g.hi = -3, 2
+		} else {
+			g.lo, g.hi = 0, 4
+		}
 		objs := g.doc(n, false)
-		for _, k := range []string{"bounds", tagKeeps[r.Intn(len(tagKeeps))], "all"} {
+		for _, k := range []string{g.boundsTok(), tagKeeps[r.Intn(len(tagKeeps))], "all"} {
 			rn := runs
 			if k == "all" {
 				rn = runs / 4
@@ -221,7 +276,7 @@ func gen(seed uint64, tier string) {
 	}
 	for i := 0; i < ndang; i++ {
 		objs := g.doc(5+r.Intn(30), true)
-		for _, k := range []string{"bounds", tagKeeps[r.Intn(len(tagKeeps))], "all"} {
+		for _, k := range []string{g.boundsTok(), tagKeeps[r.Intn(len(tagKeeps))], "all"} {
 			fmt.Fprintln(out, docLine(k, runs/4, r.U64()%1000000, objs))
 		}
 	}
